@@ -2049,7 +2049,10 @@ def c13(tier, replay=None):
         # Q trees that Python's own & | ^ operators would flatten cannot be written as
         # operator text without flattening: for those only the meaning is compared
         strict = o.get('strict_same', o.get('same'))
+        # (an empty Q() cannot be compiled as an index condition / check by Django itself:
+        # FullResultSet; it stays in the renderer-level comparison above only)
         if (not o.get('render_error') and o.get('same') and strict
+                and not codec.has_empty_q(value)
                 and pos in ('condition', 'expression', 'deferrable', 'field_attr')
                 and (i % 7 == 0 or tier == 'thorough') and v['t'] != 'none'):
             muts = codec.mutation_for(value, pos)
